@@ -200,3 +200,59 @@ def ob_b(ob):
             ob.inconclusive(sl.name)
         else:
             raise HarnessError("crosshair failed on %s:\n%s" % (sl.name, r["raw"][-1000:]))
+
+
+def replay_config(**kw):
+    from . import md_props as P
+
+    bad = P.config_violations(**kw)
+    for b in bad:
+        print("  ", b)
+    return bool(bad)
+
+
+@obligation(PID, "c", title="the cadence every engine reads from the output configuration is the integer the user requested, for all non-negative integers (a requested 0 stays 0 and suppresses the stream; no value is replaced by a default)")
+def ob_c(ob):
+    import seqm.MolecularDynamics as MD
+
+    ob.encodes(MD.OutputConfig.from_dict, MD.OutputConfig.get_h5_cadence, MD.OutputConfig.get_h5_data_every, MD.OutputConfig.get_h5_write_nonadiabatic, MD.OutputConfig.get_h5_write_tdm)
+    ob.bound("nine cadences (print, checkpoint, xyz, data, coordinates, velocities, forces, nonadiabatic, transition densities) symbolic ints in [0, 10^6], three slices of three symbolic values each with the others fixed")
+    names = ("pr", "ck", "xyz", "data", "c", "v", "f", "na", "tdm")
+    fixed = dict(pr=1, ck=0, xyz=0, data=2, c=3, v=0, f=5, na=0, tdm=0)
+    pre = "from harness import md_props as P\n"
+    slices = []
+    for sym in (("pr", "ck", "xyz"), ("data", "c", "v"), ("f", "na", "tdm"), ("ck", "c", "f")):
+        args = ", ".join("%s=%s" % (k, k if k in sym else fixed[k]) for k in names)
+        sl = chrun.Slice("K_" + "_".join(sym), pre, ", ".join("%s: int" % k for k in sym), " and ".join("0 <= %s <= 1000000" % k for k in sym), "return P.config_violations(%s) == []" % args, "_", 120)
+        sl.meta = dict(sym=sym)
+        slices.append(sl)
+    tw = chrun.Slice("twin_cfg", pre, "ck: int", "0 <= ck <= 1000000", "return P.config_violations(pr=1, ck=ck, xyz=0, data=1, c=0, v=0, f=0, na=0, tdm=0) == [] and ck != 77", "_", 120)
+    tw.meta = dict(sym=("ck",))
+    res = chrun.run_slices(slices + [tw], jobs=8)
+    for sl, r in zip(slices + [tw], res):
+        ob.paths += 1
+        ob.ch_conditions += 1
+        ob.ch_definite += r["verdict"] in ("confirmed", "counterexample")
+        if sl.name == "twin_cfg":
+            if r["verdict"] != "counterexample":
+                raise HarnessError("twin_cfg: expected the counterexample ck=77, got %s" % r["verdict"])
+            continue
+        ob.sample({"slice": sl.name, "pre": sl.pre, "verdict": r["verdict"], "seconds": r["seconds"], "call": r.get("call")})
+        if r["verdict"] == "confirmed":
+            ob.discharged(sl.name)
+        elif r["verdict"] == "counterexample":
+            vals = chrun.parse_int_args(r["args"])
+            kw = dict(fixed)
+            kw.update(dict(zip(sl.meta["sym"], vals)))
+            print("counterexample from CrossHair:", r["call"])
+            from . import md_props as P
+
+            bad = P.config_violations(**kw)
+            if bad:
+                ob.violation("output configuration %s: %s" % (kw, "; ".join(bad)[:300]), {"module": "harness.C11", "func": "replay_config", "args": kw})
+            else:
+                raise HarnessError("configuration counterexample did not reproduce: %s" % r["call"])
+        elif r["verdict"] == "inconclusive":
+            ob.inconclusive(sl.name)
+        else:
+            raise HarnessError("crosshair failed on %s:\n%s" % (sl.name, r["raw"][-1000:]))
